@@ -22,6 +22,11 @@
 (*     own bound (cfg.cap), a put is refused / forced into ITS lane, a get *)
 (*     takes the oldest element of lane 1, of lane 2 when lane 1 is empty. *)
 (*                                                                         *)
+(* Calls that run caller code in the middle of their work (the queue's     *)
+(* Failed / Overflowed handlers, the comparator of Sort) are atomic like    *)
+(* every other call: the harness issues another goroutine's point          *)
+(* operation from inside that caller code (generator "gate").              *)
+(*                                                                         *)
 (* A goroutine p Invokes a call, the call takes effect atomically at some  *)
 (* moment before it Returns (the silent step Lin), and the result it       *)
 (* returns is the one the sequential object gives at that moment.  The     *)
@@ -104,6 +109,9 @@ Eff(c) ==
     [] c.o = "RemoveFirst" -> RemoveFirst /\ HasF(c, "ret") /\ FirstValOK(c.ret)
     [] c.o = "RemoveLast"  -> RemoveLast /\ HasF(c, "ret") /\ LastValOK(c.ret)
     [] c.o = "Clear"       -> Clear
+    \* a whole-structure operation that runs caller code (the comparator): atomic like every other call -- a point
+    \* operation issued while the comparator runs takes effect before or after the whole sort (generator "gate")
+    [] c.o = "Sort"        -> HasF(c, "dir") /\ Sort(c.dir)
     [] c.o = "Size"        -> UNCHANGED vars /\ HasF(c, "n") /\ c.n = Len(ord)
     [] c.o = "IsEmpty"     -> UNCHANGED vars /\ HasF(c, "b") /\ c.b = (Len(ord) = 0)
     [] c.o = "GetFirstKey" -> UNCHANGED vars /\ HasF(c, "rk") /\ (Len(ord) > 0 => c.rk = FirstKey)
@@ -115,9 +123,14 @@ Eff(c) ==
     [] c.o \in {"LAddLast", "LAdd"} -> ~Present(c.k) /\ PutLast(c.k, 0) /\ (HasF(c, "b") => c.b = TRUE)
     [] c.o = "Touch"       -> UNCHANGED vars          \* node handles: nothing recorded
     \* the queue: refused when full / forced in by evicting from the head
+    \* (handlers installed: fail = what the Failed handler was handed during the call, exactly the refused element;
+    \* drop = what the Overflowed handler was handed, exactly the oldest elements that had to go, oldest first)
     [] c.o = "QPut"        -> /\ ~Present(c.k) /\ HasF(c, "ok") /\ c.ok = ~Full
+                              /\ HasF(c, "fail") => c.fail = (IF Full THEN <<c.k>> ELSE <<>>)
                               /\ IF Full THEN UNCHANGED vars ELSE PutLast(c.k, 0)
-    [] c.o = "QPutForce"   -> ~Present(c.k) /\ HasF(c, "ok") /\ c.ok = ~Full /\ PutLast(c.k, 0)
+    [] c.o = "QPutForce"   -> /\ ~Present(c.k) /\ HasF(c, "ok") /\ c.ok = ~Full
+                              /\ HasF(c, "drop") => c.drop = (IF Full THEN SubSeq(ord, 1, Len(ord) - max + 1) ELSE <<>>)
+                              /\ PutLast(c.k, 0)
     [] c.o \in {"QGetNoWait", "QGetTimeout"} -> RemoveFirst /\ HasF(c, "ret") /\ FirstValOK(c.ret)
     \* the blocking dequeue returns an element: it cannot take effect on an empty queue
     [] c.o = "QGet"        -> Len(ord) > 0 /\ RemoveFirst /\ HasF(c, "ret") /\ FirstValOK(c.ret)
